@@ -134,13 +134,42 @@ def run(ctx):
 
 
 CHECK = {
-    "lean_modules": ["P3R.Props.C11", "P3R.Props.C11Packed", "P3R.Props.C11Sched", "P3R.Props.C11P", "P3R.Witness.C11P"],
+    "lean_modules": ["P3R.Props.C11", "P3R.Props.C11Packed", "P3R.Props.C11Gen", "P3R.Props.C11PackedGen", "P3R.Props.C11WindowGen", "P3R.Props.C11Sched", "P3R.Props.C11P", "P3R.Witness.C11P", "P3R.Witness.C11Gen"],
     "lean_exes": ["p3r_driver_c11", "p3r_driver_c11p"],
     "theorems": ["P3R.C11.laneAdd_iff", "P3R.C11.laneEq_iff", "P3R.C11.laneMulAdd_iff", "P3R.C11.laneBool_iff",
                  "P3R.C11.hornerSingle_iff", "P3R.C11.lane_zero_sel", "P3R.C11.send_accepts_every_row", "P3R.C11.send_value_is_main_cell", "P3R.C11.sep_out_zero", "P3R.C11.extMulBinomial_eval_D2",
                  "P3R.C11.extMulBinomial_eval_D4", "P3R.C11.extMulBinomial_eval_D5", "P3R.C11.extMulBinomial_eval_D8", "P3R.C11.extMulQuintic_eval", "P3R.C11.packed2_iff", "P3R.C11.packed3_iff",
                  # every arity: the `while s < kk` legs of the model (packedLegs, D = 1) accept exactly chains of single steps
                  "P3R.C11.packedLegs_one_succ", "P3R.C11.packedLegs_sound", "P3R.C11.packedLegs_complete", "P3R.C11.packed_row_sound",
+                 # every extension degree D, ring level (Props/C11Gen): extMulBinomial / extMul IS the product of K[X]/(X^D - w) resp. the
+                 # quintic trinomial ring; lane relations between the ring elements the D-cell segments denote; converse under
+                 # power-basis independence (proved for K[X]/(g), g monic)
+                 "P3R.C11.vget_extMulBinomial", "P3R.C11.extMulBinomial_eval", "P3R.C11.extMulBinomial_evalAt", "P3R.C11.evalAt_eq_ev",
+                 "P3R.C11.extMulBinomial_eval_D2'", "P3R.C11.extMulBinomial_eval_D4'", "P3R.C11.extMulBinomial_eval_D5'", "P3R.C11.extMulBinomial_eval_D8'",
+                 "P3R.C11.extMulBinomial_eval_one", "P3R.C11.extMulQuintic_eval_gen", "P3R.C11.extMul_eval",
+                 "P3R.C11.vec_zero_ring", "P3R.C11.vec_zero_ring_iff",
+                 "P3R.C11.laneAdd_ring", "P3R.C11.laneAdd_ring_iff", "P3R.C11.laneMul_ring", "P3R.C11.laneMul_ring_iff",
+                 "P3R.C11.laneMulAdd_ring", "P3R.C11.laneMulAdd_ring_iff", "P3R.C11.hornerSingle_ring", "P3R.C11.hornerSingle_ring_iff",
+                 "P3R.C11.laneBool_ring", "P3R.C11.laneBool_ring_iff", "P3R.C11.sep_out_zero_ring",
+                 "P3R.C11.coeffIndep_adjoinRoot", "P3R.C11.kindRoot_adjoinRoot_binomial", "P3R.C11.coeffIndep_adjoinRoot_binomial",
+                 "P3R.C11.laneMulAdd_adjoinRoot_binomial_iff", "P3R.C11.quinticPoly_monic", "P3R.C11.quinticPoly_natDegree",
+                 "P3R.C11.kindRoot_adjoinRoot_quintic", "P3R.C11.coeffIndep_adjoinRoot_quintic",
+                 # packed Horner rows, every arity AND every D (Props/C11PackedGen), on the model function packedLegs itself
+                 "P3R.C11.packedLegs_succ", "P3R.C11.ev_legProd", "P3R.C11.bsq_ring", "P3R.C11.firstLeg_ring",
+                 "P3R.C11.packedLegs_sound_gen", "P3R.C11.packedLegs_complete_gen", "P3R.C11.packed_row_sound_gen", "P3R.C11.packed2_iff_gen",
+                 "P3R.C11.hchainR_eq_hchain",
+                 # whole windows (Props/C11WindowGen): the vectors above are parts of the model's complete constraint list aluConstraints
+                 # (the function compared value-by-value with the real AluAir::eval); all constraints of a window vanish => ring-level relation
+                 "P3R.C11.laneBlocks_sub", "P3R.C11.wC1_sub", "P3R.C11.wC2_sub", "P3R.C11.wC3_sub", "P3R.C11.wC4_sub",
+                 "P3R.C11.lsum_onehot", "P3R.C11.lsum_onehot_ge3",
+                 "P3R.C11.window_add_ring", "P3R.C11.window_mul_ring", "P3R.C11.window_mulAdd_ring", "P3R.C11.window_hornerSingle_ring",
+                 "P3R.C11.packed_window_sound_gen",
+                 "P3R.Witness.C11Gen.kindRoot2_ok", "P3R.Witness.C11Gen.win_accept01", "P3R.Witness.C11Gen.win_accept12",
+                 "P3R.Witness.C11Gen.packed3_window_instance", "P3R.Witness.C11Gen.packed3_window_value", "P3R.Witness.C11Gen.bsq_ok",
+                 "P3R.Witness.C11Gen.kindRoot_ok", "P3R.Witness.C11Gen.product_instance", "P3R.Witness.C11Gen.product_direct",
+                 "P3R.Witness.C11Gen.root_hypothesis_needed", "P3R.Witness.C11Gen.mulAdd_row_accepted", "P3R.Witness.C11Gen.mulAdd_instance",
+                 "P3R.Witness.C11Gen.mulAdd_tampered_rejected", "P3R.Witness.C11Gen.packed5_legs_vanish", "P3R.Witness.C11Gen.packed5_instance",
+                 "P3R.Witness.C11Gen.packed5_tampered_rejected", "P3R.Witness.C11Gen.coeffIndep_needed", "P3R.Witness.C11Gen.addRow_ring_not_coeff",
                  # the Horner schedule (model of compute_schedule, tied to the real AluAir every run): packing preserves the bus
                  "P3R.C11.packed_net", "P3R.C11.sched_net", "P3R.C11.computeSchedule_tested", "P3R.C11.splitChains_cover",
                  "P3R.C11.computeSchedule_cover", "P3R.C11.schedule_preserves_bus",
@@ -160,7 +189,9 @@ CHECK = {
                      "compact D=1 capacity / length-tag constraints, every WitnessChecks interaction) is modelled (lean/P3R/Model/PoseidonCtl.lean) and compared value-by-value; "
                      "the permutation's own round constraints (inner p3-poseidon2-air / p3-poseidon1-air eval) are an uninterpreted relation: they are identified as the tail of the "
                      "recorded constraint list, checked equal to the inner AIR evaluated alone on the permutation columns, and stripped"],
-    "assumptions": ["packed Horner legs are proved for every arity at D = 1 (packedLegs_sound/complete); for packed legs at D > 1 the tie is the value-exact correspondence and the tamper oracle only",
+    "assumptions": ["ring-level theorems (every D): the extension ring is any commutative ring L with a ring map K -> L and a root alpha of the kind's modulus (KindRoot); the converse directions "
+                    "(…_ring_iff, packedLegs_complete_gen) additionally assume power-basis independence CoeffIndep, which is proved for K[X]/(g), g monic (coeffIndep_adjoinRoot; binomial and quintic instances) "
+                    "and shown necessary by Witness.C11Gen.coeffIndep_needed; that the Rust extension-field types are K[X]/(X^D - W) resp. K[X]/(X^5 + X^2 - 1) is p3-field's definition, not re-proved",
                     "Poseidon tables: outputs = Perm(inputs) is not modelled; the honest-chain / tamper oracle decides it with the real one-row trace generator"],
 }
 
@@ -168,6 +199,6 @@ MANIFEST_ENTRY = {
     "property_id": "C11", "quick_cmd": "bin/check C11 --tier quick", "thorough_cmd": "bin/check C11 --tier thorough",
     "evidence_file": "evidence/C11.json", "replay_cmd_template": "bin/check C11 --replay {path}", "engine": "lean-models",
     "technique": "Lean 4 iff-theorems over a model of AluAir::eval + value-exact correspondence with a recording AirBuilder",
-    "level_claimed": {"category": "proof", "text": "per-kind row iff theorems (all D), extension product specs (binomial D=2,4,5,8, quintic trinomial), packed Horner legs of every arity (D=1: packedLegs_sound / packedLegs_complete over the model function itself); the model's constraint and interaction values equal the real AluAir::eval's on random windows for every configuration; relation oracles on structured rows and tampered scheduled traces. Poseidon2/Poseidon1 circuit tables (control part): accumulator recurrence = running binary / base-4 value of the bits from the reset row (accChain2_iff, accChain4_iff, binVal_cast), chaining and Merkle placement iff theorems for every D / width, whole generic window (generic_window_iff), zero-selector rows accept everything; model = real eval on random and honest windows of 11 configurations; honest chains from the real trace generator with single-cell tampering judged by an operation decoder; negation witnesses for the accepted-invalid rows (known findings).", "design_ref": "4/C11"},
-    "level_note": "ALU, Const/Public, recompose tables and the control part of the Poseidon2/Poseidon1 circuit tables modelled (permutation rounds uninterpreted); packed arities at D>1 by correspondence only",
+    "level_claimed": {"category": "proof", "text": "per-kind row iff theorems (all D), extension product spec for EVERY degree D (extMulBinomial_eval: the model's double sum with wrap-around factor w is multiplication in K[X]/(X^D - w), any commutative ring, any root; extMul_eval for base / binomial / quintic-trinomial kinds; the D=2,4,5,8 theorems are corollaries), lane relations lifted to the extension ring for every D (laneAdd/Mul/MulAdd/Bool/hornerSingle_ring, converse under power-basis independence, instantiated for K[X]/(g)), packed Horner legs of every arity AND every D over the model function itself (packedLegs_sound_gen / packedLegs_complete_gen / packed_row_sound_gen; D=1: packedLegs_sound / packedLegs_complete), and whole windows: every constraint of the model's aluConstraints vanishing on two consecutive windows forces a packed row of arity kk to be kk chained single Horner steps in the extension ring (packed_window_sound_gen), likewise ADD / MUL / MUL_ADD / single-step HORNER lanes (window_*_ring); the model's constraint and interaction values equal the real AluAir::eval's on random windows for every configuration; relation oracles on structured rows and tampered scheduled traces. Poseidon2/Poseidon1 circuit tables (control part): accumulator recurrence = running binary / base-4 value of the bits from the reset row (accChain2_iff, accChain4_iff, binVal_cast), chaining and Merkle placement iff theorems for every D / width, whole generic window (generic_window_iff), zero-selector rows accept everything; model = real eval on random and honest windows of 11 configurations; honest chains from the real trace generator with single-cell tampering judged by an operation decoder; negation witnesses for the accepted-invalid rows (known findings).", "design_ref": "4/C11"},
+    "level_note": "ALU, Const/Public, recompose tables and the control part of the Poseidon2/Poseidon1 circuit tables modelled (permutation rounds uninterpreted); packed arities at every D proved at ring level (soundness unconditional; completeness under power-basis independence); whole-window completeness (honest rows => every constraint of aluConstraints vanishes) for D>1 is by correspondence / oracle only",
 }
